@@ -377,7 +377,12 @@ impl Readable for SlatepackBin {
 					return Err(ser::Error::CorruptedData);
 				}
 			};
-			bytes_to_payload -= len;
+			// the header length is read from the input: it cannot be shorter than the
+			// address it is said to contain
+			bytes_to_payload = match bytes_to_payload.checked_sub(len) {
+				Some(b) => b,
+				None => return Err(ser::Error::CorruptedData),
+			};
 			Some(addr)
 		} else {
 			None
